@@ -3,7 +3,7 @@ import heapq
 import math
 import struct
 
-from .absint import (I, Fl, Ag, En, Sq, Pt, Top, Md, UNIT, BOT, Bot, St, Ctx, Frame, Unsupported, Diverge, PathAbort,
+from .absint import (p_const, p_add, p_mul, RQ, I, Fl, Ag, En, Sq, Pt, Top, Md, UNIT, BOT, Bot, St, Ctx, Frame, Unsupported, Diverge, PathAbort,
                      INF, USIZE_MAX, ISIZE_MAX, array_len, join_states, same_state, gc_state, map_value, iter_ints, rename_vid)
 from .facts import CheckerError, const_of, decode_scalar
 from .mir import Body, kind_of, show
@@ -713,6 +713,16 @@ class Interp:
         else:
             raise Unsupported(f"binop {op}")
         fits = tlo <= mlo and mhi <= thi
+        rpoly = None
+        if st.res and base in ("Add", "Sub", "Mul", "Rem"):
+            ra = st.res.get(a.vid, p_const(la) if la == ha else None)
+            rb = st.res.get(b.vid, p_const(lb) if lb == hb else None)
+            if base == "Rem":
+                if ra is not None and lb == hb == RQ:
+                    rpoly = ra
+            elif ra is not None and rb is not None:
+                if len(ra) * len(rb) <= 64:
+                    rpoly = p_add(ra, rb) if base == "Add" else p_add(ra, rb, -1) if base == "Sub" else p_mul(ra, rb)
         if checked:
             if fits:
                 ovf = self.mkbool(st, 0)
@@ -727,10 +737,14 @@ class Interp:
             z = self.ctx.mk_int(st, rl, rh, rty, taint=taint)
             st.prov[ovf.vid] = ("ovf", (z.vid,), (op, mlo, mhi))
             self.derive(st, z, facts, scale, prov, exact=True)
+            if rpoly is not None:
+                st.res[z.vid] = rpoly
             return Ag((z, ovf))
         if fits or "Unchecked" in op:
             z = self.ctx.mk_int(st, max(mlo, tlo), min(mhi, thi), rty, taint=taint)
             self.derive(st, z, facts, scale, prov, exact=True)
+            if rpoly is not None:
+                st.res[z.vid] = rpoly
             return z
         # wrapping arithmetic
         if mlo == mhi:
@@ -742,6 +756,8 @@ class Interp:
             if wl <= wh and (mlo - wl) == (mhi - wh):
                 z = self.ctx.mk_int(st, wl, wh, rty, taint=taint)
                 st.prov[z.vid] = ("wrapped", (), (mlo - wl))
+                if rpoly is not None:
+                    st.res[z.vid] = p_add(rpoly, p_const(mlo - wl), -1)
                 return z
         return self.ctx.mk_int(st, tlo, thi, rty, taint=taint)
 
@@ -866,6 +882,8 @@ class Interp:
                     nlo, nhi = tlo, thi
             z = self.ctx.mk_int(st, max(nlo, tlo), nhi, a.ty, taint=taint)
             st.prov[z.vid] = ("neg", (a.vid,), None)
+            if a.vid in st.res and -hi >= tlo and -lo <= thi:
+                st.res[z.vid] = p_add({}, st.res[a.vid], -1)
             return z
         raise Unsupported(f"unop {op}")
 
@@ -902,6 +920,8 @@ class Interp:
                 if wl <= wh and (lo - wl) == (hi - wh):
                     z = self.ctx.mk_int(st, wl, wh, ty, taint=taint)
                     st.prov[z.vid] = ("wrapcast", (a.vid,), lo - wl)
+                    if a.vid in st.res:
+                        st.res[z.vid] = p_add(st.res[a.vid], p_const(lo - wl), -1)
                     return z
             z = self.ctx.mk_int(st, tlo, thi, ty, taint=taint)
             st.prov[z.vid] = ("truncast", (a.vid,), None)
